@@ -320,6 +320,7 @@ def gen_ops(m, tier):
             ops.append(["radd", x])
         if 2 * n + xm.n <= MAX_N:
             ops.append(["concat3", x])
+    ops.append(["concat1"])
     if m.kind == "array":
         for k in (1, 2, 3):
             if k <= MAX_M:
@@ -490,6 +491,8 @@ def apply_model(m, op):
         x = AUX[op[1]]()
         parts = {"add": [m, x], "radd": [x, m], "concat3": [m, x, m]}[k]
         return ("state", m_concat(parts))
+    if k == "concat1":
+        return ("state", m_concat([m]))
     if k == "stack_of":
         return ("state", M("stack", [dict(a) for a in m.atoms], list(m.cats),
                            [[(c[0] + 100 * j, c[1], c[2]) for c in m.coords[0]] for j in range(op[1])],
@@ -665,9 +668,11 @@ def apply_impl(obj, m, op):
         if k == "radd":
             return x + obj
         return struc.concatenate([obj, x, obj])
+    if k == "concat1":
+        return struc.concatenate([obj])
     if k == "stack_of":
-        arrs = []
-        for j in range(op[1]):
+        arrs = [obj]
+        for j in range(1, op[1]):
             a = obj.copy()
             c = a.coord.copy()
             c[:, 0] += 100 * j
@@ -1169,7 +1174,36 @@ def step_check(ctx, init, hist, m, op, base):
                           "%s disagrees with the list-of-atoms model after %s" % (bad[0][0], op[0]), case,
                           bad[0][1], bad[0][2])
             return None
-    return ("state", m2, res)
+    if shared:
+        # The reference model builds a NEW list for every operation that returns a container, so
+        # editing the result must not reach the operand.  Whether array buffers are shared is
+        # unspecified (ASSUMPTIONS), therefore only re-binding edits are made: they never write
+        # through a buffer, but they do reach the operand if the 'result' IS the operand or shares
+        # its annotation dictionary.
+        shape = tuple(res.shape)
+        how = "is_operand" if res is obj else None
+        if how is None:
+            try:
+                res.set_annotation("zz_new", np.zeros(res.array_length()))
+                if res.shape[0] > 0:
+                    del res[0]
+                res.coord = res.coord + 1.0
+                res.box = None
+                res.bonds = None
+            except Exception as e:  # noqa: BLE001
+                ctx.violation("%s|result_not_editable_%s" % (ocl, type(e).__name__),
+                              "the result of %s refused a plain edit" % op[0], case, "success", repr(e)[:200])
+                return None
+            still = observe_light(obj, m)
+            if still:
+                how = "edit_reaches_operand:" + still[0][0].split("[")[0]
+        if how:
+            ctx.violation("%s|result_not_distinct|%s" % (ocl, how.split(":")[-1]),
+                          "%s returned a container that is (or shares its annotation table with) the operand: "
+                          "editing the result changed the operand" % op[0], case, "operand unchanged", how)
+            return None
+        return ("state", m2, res, key if key is not None else ("nokey", id(res)), shape)
+    return ("state", m2, res, canon(res, m2), tuple(res.shape))
 
 
 def canon_safe(obj, m):
@@ -1225,9 +1259,9 @@ def run_shard(shard, ctx):
                 ctx.ev(1, 1 if nontriv else 0)
                 ctx.outcome((op_class(op, m), r[0], r[1].key() if r[0] == "state" else None))
                 if r[0] == "state":
-                    if ctx.state(canon(r[2], r[1])):
+                    if ctx.state(r[3]):
                         if len(ctx.samples) < 3 and d >= 2 and r[1].n:
-                            ctx.sample({"init": init, "hist": hist + [op], "reached_shape": list(r[2].shape)})
+                            ctx.sample({"init": init, "hist": hist + [op], "reached_shape": list(r[4])})
                         if d < depth and r[1].n <= MAX_N and r[1].m <= MAX_M:
                             nxt.append((hist + [op], r[1]))
         frontier = nxt
